@@ -868,6 +868,16 @@ class Universe(object):
                     inst, short
             sig = inspect.signature(f)
             args = gen_args(rng, qual, sig)
+            # a longitude / right ascension in its other representation,
+            # v - 360 in (-360, 0), now and then (whatever the generator of
+            # this function produced)
+            names = list(sig.parameters)
+            for i_, a_ in enumerate(args):
+                if i_ < len(names) and names[i_] in LON_PARAMS \
+                        and type(a_).__name__ == "Angle" \
+                        and 0.0 < a_._deg < 360.0 and rng.random() < 0.2:
+                    from pymeeus.Angle import Angle as _A
+                    args[i_] = _A(a_._deg - 360.0)
             # two epochs: now and then equal, or one object passed twice
             ei = [i for i, a in enumerate(args)
                   if type(a).__name__ == "Epoch"]
